@@ -66,7 +66,10 @@ Record Inv (s : st) : Prop := {
      not observed uniqueness, and every write to the buffer happens-before the borrower *)
   J10 : forall c p, lend (T s c) = S p ->
           started (T s c) = true /\ p <> c /\ refs (T s p) > 0 /\ lend (T s p) = 0 /\ excl (T s p) = false
-          /\ cle (Wc s) (clk (T s c))
+          /\ cle (Wc s) (clk (T s c));
+  (* a message a thread may still read (nothing newer has reached it) counts at least that thread's own references *)
+  J11 : forall t p m, refs (T s t) > 0 -> nth_error (msgs s) p = Some m ->
+          (forall m', In m' (firstn p (msgs s)) -> ~ hb m' (clk (T s t))) -> refs (T s t) <= val m
 }.
 
 Lemma T_dth s t : length (ths s) <= t -> T s t = dth.
@@ -127,7 +130,7 @@ Proof.
   - (* release *)
     destruct (Nat.ltb_spec 0 (refs (T s t))) as [Hr|Hr]; cbn [negb orb]; [|discriminate].
     destruct (mustfree (T s t)); [discriminate|]. cbn [orb].
-    destruct (lends_from s t); [discriminate|].
+    destruct (lends_from s t && Nat.leb (refs (T s t)) 1); [discriminate|].
     destruct (live s) eqn:Hl; cbn [negb]; [discriminate|].
     destruct (J6 s I Hl) as [H0 _]. pose proof (total_ge (ths s) t). unfold T, getth in Hr. lia.
   - (* free *)
@@ -142,7 +145,7 @@ Proof.
     apply cleb_spec in HW', HR'. rewrite HW', HR'. cbn. discriminate.
   - (* probe *)
     destruct (Nat.ltb_spec 0 (refs (T s t))) as [Hr|Hr]; cbn [negb orb]; [|discriminate].
-    destruct (lends_from s t); [discriminate|].
+    destruct (lends_from s t && Nat.leb (refs (T s t)) 1); [discriminate|].
     destruct (live s) eqn:Hl; cbn [negb].
     + destruct (nth_error (msgs s) p); [|discriminate].
       destruct (forallb _ _); cbn; discriminate.
